@@ -17,6 +17,15 @@ CHECKS = {
               "with prctl), Hypothesis. Names are NUL-free and <= 15 bytes; kernels other than the sandbox's are modelled from proc(5)."),
         design="DESIGN.md section 3 C06",
     ),
+    "C07": dict(
+        level="exploration",
+        technique="property-based testing (Hypothesis): generated /proc/stat snapshot programs from 1-3 threads under virtual time -> exact-rational reference",
+        text=("Programs of snapshot changes (zero, sub-tick, huge and negative deltas; 7-10 fields; non-contiguous CPUs) and calls in every blocking/non-blocking/percpu form from "
+              "1-3 persistent threads are run against the real code with a simulated /proc/stat and virtual sleep; every result is compared with an exact-rational model that "
+              "tracks each thread's previous sample per API family. Process.cpu_percent is checked under a virtual monotonic clock. Search, not proof; thread interleaving is at call granularity."),
+        note=("Trusted: vlib/simk.py (file layer, virtual time). Counters <= 2^40 ticks; CPU set constant within a program; a thread's first non-blocking call only range-checked."),
+        design="DESIGN.md section 3 C07",
+    ),
     "C08": dict(
         level="exploration",
         technique="property-based testing (Hypothesis): generated meminfo/vmstat/zoneinfo -> independent integer re-statement of the documented formulas",
